@@ -11,6 +11,8 @@
     reissue_probe : Err(InsufficientCapacity); other Err → Err(same). fail_probe turns the last issued slot from Awaited into Failed;
     reissue_probe stores Skipped at index−1.
  R5 ErrorMapper tables (in_progress / addr_in_use / probe_failed) and their presence on the TCP bind / connect chains (v4 and v6).
+ C07.R3 (imported) the capacity test behind InsufficientCapacity is sequence − round_sequence < BUFFER_SIZE, so the re-issue loop ends with that
+    error instead of indexing past the round buffer (a panic would surface neither as a returned error nor in the shared state).
 Not decided: which OS errors ought to be transient; exhaustive fault sequences (rules are per-step and cover every step once).
 """
 import re
@@ -36,6 +38,8 @@ def run(chk, tier):
     eng0 = Engine(prog, inline_depth=0, loop_visits=3)
     eng = Engine(prog, inline_depth=2)
     evars = prog.variant_names(ERR)
+    from ..report import run_sub
+    run_sub(chk, 'c07', 'C07.', {'R3'})
 
     # ---- R1 ---------------------------------------------------------------------------------------------
     chk.rule('R1', 'exactly max_rounds rounds: loop guard, finished(), round counter writers', floor=5)
